@@ -153,6 +153,66 @@ func jsonObjects(p *Program) map[string]*JSONObject {
 	return out
 }
 
+// zeroValued: the reset `tgt = E` at the top of body assigns a zero value: a composite literal without
+// elements, a constant zero, or a variable of the function that is declared without value and never
+// assigned or address-taken.
+func zeroValued(info *types.Info, fd *ast.FuncDecl, body *ast.BlockStmt, tgt types.Object) bool {
+	for _, st := range body.List {
+		as, ok := st.(*ast.AssignStmt)
+		if !ok || as.Tok != token.ASSIGN || len(as.Lhs) != len(as.Rhs) {
+			continue
+		}
+		for i, l := range as.Lhs {
+			if identObj(info, l) != tgt {
+				continue
+			}
+			rhs := ast.Unparen(as.Rhs[i])
+			if cl, ok := rhs.(*ast.CompositeLit); ok {
+				return len(cl.Elts) == 0
+			}
+			if tv, ok := info.Types[rhs]; ok && tv.Value != nil {
+				z := tv.Value.String()
+				return z == "0" || z == `""` || z == "false"
+			}
+			if isNilIdent(rhs) {
+				return true
+			}
+			z := identObj(info, rhs)
+			if z == nil {
+				return false
+			}
+			declaredBare, touched := false, false
+			ast.Inspect(fd.Body, func(n ast.Node) bool {
+				switch x := n.(type) {
+				case *ast.ValueSpec:
+					for _, nm := range x.Names {
+						if info.Defs[nm] == z && len(x.Values) == 0 {
+							declaredBare = true
+						}
+					}
+				case *ast.AssignStmt:
+					for _, l2 := range x.Lhs {
+						if identObj(info, l2) == z {
+							touched = true
+						}
+					}
+				case *ast.UnaryExpr:
+					if x.Op == token.AND && identObj(info, x.X) == z {
+						touched = true
+					}
+				case *ast.IncDecStmt:
+					if identObj(info, x.X) == z {
+						touched = true
+					}
+				}
+				return true
+			})
+			return declaredBare && !touched
+		}
+	}
+	return false
+}
+
 // nilFixAssigns: the block assigns a non-nil slice value (composite literal or make).
 func nilFixAssigns(info *types.Info, b *ast.BlockStmt) bool {
 	ok := false
@@ -409,11 +469,16 @@ func buildJSONWriter(p *Program, o *JSONObject) {
 				row.NullCapable = nullCapableWriter(info, body)
 				ast.Inspect(body, func(n ast.Node) bool {
 					if ifs, ok := n.(*ast.IfStmt); ok {
-						if be, ok := ifs.Cond.(*ast.BinaryExpr); ok && be.Op == token.EQL && isNilIdent(be.Y) {
+						if be, ok := ifs.Cond.(*ast.BinaryExpr); ok && (be.Op == token.EQL || be.Op == token.NEQ) && isNilIdent(be.Y) {
 							// the test must see the slice itself: a nil slice stored in an interface
 							// variable (`var v any = s; if v == nil`) compares unequal to nil
 							if t := info.TypeOf(be.X); t != nil {
-								if _, isSlice := t.Underlying().(*types.Slice); isSlice && nilFixAssigns(info, ifs.Body) {
+								nilArm := ifs.Body
+								if be.Op == token.NEQ {
+									// `if s != nil { v = s } else { v = []T{} }`
+									nilArm, _ = ifs.Else.(*ast.BlockStmt)
+								}
+								if _, isSlice := t.Underlying().(*types.Slice); isSlice && nilArm != nil && nilFixAssigns(info, nilArm) {
 									row.NilSliceFix = true
 								}
 							}
@@ -463,28 +528,43 @@ func nullCapableWriter(info *types.Info, body *ast.BlockStmt) bool {
 	if v == nil {
 		return false
 	}
-	uncond := false
-	for _, st := range body.List {
-		if as, ok := st.(*ast.AssignStmt); ok {
-			for _, l := range as.Lhs {
+	uncond := assignsOnAllPaths(info, body.List, v)
+	return !uncond
+}
+
+// assignsOnAllPaths: v is assigned by a statement of the list itself, by a nested plain block, or by
+// both arms of an if/else (recursively) — whatever the path through the list, v is assigned.
+func assignsOnAllPaths(info *types.Info, list []ast.Stmt, v types.Object) bool {
+	for _, st := range list {
+		switch s := st.(type) {
+		case *ast.AssignStmt:
+			for _, l := range s.Lhs {
 				if identObj(info, l) == v {
-					uncond = true
+					return true
 				}
 			}
-		}
-		if blk, ok := st.(*ast.BlockStmt); ok {
-			for _, s2 := range blk.List {
-				if as, ok := s2.(*ast.AssignStmt); ok {
-					for _, l := range as.Lhs {
-						if identObj(info, l) == v {
-							uncond = true
-						}
-					}
-				}
+		case *ast.BlockStmt:
+			if assignsOnAllPaths(info, s.List, v) {
+				return true
+			}
+		case *ast.IfStmt:
+			if s.Else == nil {
+				continue
+			}
+			thenOK := assignsOnAllPaths(info, s.Body.List, v)
+			elseOK := false
+			switch e := s.Else.(type) {
+			case *ast.BlockStmt:
+				elseOK = assignsOnAllPaths(info, e.List, v)
+			case *ast.IfStmt:
+				elseOK = assignsOnAllPaths(info, []ast.Stmt{e}, v)
+			}
+			if thenOK && elseOK {
+				return true
 			}
 		}
 	}
-	return !uncond
+	return false
 }
 
 // writePropertyShape checks the closure: writes comma + quote + name + quote-colon, null or Encode(v), then comma = ",".
@@ -592,6 +672,14 @@ func buildJSONReader(p *Program, o *JSONObject) {
 	}
 	m := ps[0]
 	list := mergeCommaOk(info, fd.Body.List)
+	// the tail of the decoder moved into a method of its own: `return c.unmarshalJSONAdditionalProperties(m)`
+	if n := len(list); n > 0 {
+		if ret, ok := list[n-1].(*ast.ReturnStmt); ok && len(ret.Results) == 1 && !isNilIdent(ret.Results[0]) {
+			if exp, ok := p.inliner().expandTailCall(list); ok {
+				list = mergeCommaOk(info, exp)
+			}
+		}
+	}
 	outerField := func(e ast.Expr) *types.Var {
 		// outermost field of the receiver in a selector chain
 		e = ast.Unparen(e)
@@ -699,9 +787,21 @@ func buildJSONReader(p *Program, o *JSONObject) {
 							rs, inside = r2, true
 						}
 					}
-					if rs == nil && len(s.Body.List) == 1 && i+1 < len(list) {
-						if r2, ok := list[i+1].(*ast.RangeStmt); ok && c.isObj(r2.X, m) {
-							rs = r2
+					skipDecls := 0
+					if rs == nil && len(s.Body.List) == 1 {
+						// declarations of the decode target may stand between the make-guard and the loop
+						j := i + 1
+						for j < len(list) {
+							if _, isDecl := list[j].(*ast.DeclStmt); !isDecl {
+								break
+							}
+							j++
+						}
+						if j < len(list) {
+							if r2, ok := list[j].(*ast.RangeStmt); ok && c.isObj(r2.X, m) {
+								rs = r2
+								skipDecls = j - (i + 1)
+							}
 						}
 					}
 					if rs != nil {
@@ -741,6 +841,28 @@ func buildJSONReader(p *Program, o *JSONObject) {
 							}
 						}
 						if !fresh {
+							// or: declared outside and reset at the top of every iteration (`v = zero`)
+							nT, nReset := 0, 0
+							ast.Inspect(rs.Body, func(n ast.Node) bool {
+								call, ok := n.(*ast.CallExpr)
+								if !ok {
+									return true
+								}
+								for _, a := range call.Args {
+									if u, ok := ast.Unparen(a).(*ast.UnaryExpr); ok && u.Op == token.AND {
+										if tgt := identObj(info, u.X); tgt != nil {
+											nT++
+											if resetBefore(info, rs.Body, tgt, call.Pos()) && zeroValued(info, fd, rs.Body, tgt) {
+												nReset++
+											}
+										}
+									}
+								}
+								return true
+							})
+							fresh = nT > 0 && nT == nReset
+						}
+						if !fresh {
 							row.Problems = append(row.Problems, "additional properties are decoded into a variable that is not re-declared per entry: state of an earlier entry leaks into later ones")
 						}
 						if row.Field == nil {
@@ -748,7 +870,7 @@ func buildJSONReader(p *Program, o *JSONObject) {
 						}
 						o.Reader = append(o.Reader, row)
 						if !inside {
-							i++
+							i += 1 + skipDecls
 						}
 						continue
 					}
@@ -1174,7 +1296,7 @@ func isCommaWriterOf(p *Program, body *ast.BlockStmt, cw, out, comma types.Objec
 			ok, cwName = true, cwType.Obj().Name()
 		}
 	}
-	return ok && cwName != "" && commaWriterShape(p, cwName) == ""
+	return ok && cwName != "" && commaWriterBehaviour(p, cwName) == ""
 }
 
 func advancesIfWritten(info *types.Info, body *ast.BlockStmt, cw, comma types.Object) bool {
@@ -1197,67 +1319,6 @@ func advancesIfWritten(info *types.Info, body *ast.BlockStmt, cw, comma types.Ob
 	return false
 }
 
-// commaWriterShape: "" when (*commaWriter).Write emits c.comma before the first non-empty write and sets written.
-func commaWriterShape(p *Program, typeName string) string {
-	fd := p.funcDecl(typeName, "Write")
-	if fd == nil {
-		return "separator writer's Write method not found"
-	}
-	// field roles by type: io.Writer, string separator, bool flag
-	wF, cF, bF := "", "", ""
-	if tn, ok := p.Pkg.Types.Scope().Lookup(typeName).(*types.TypeName); ok {
-		if st, ok := tn.Type().Underlying().(*types.Struct); ok {
-			for i := 0; i < st.NumFields(); i++ {
-				switch u := st.Field(i).Type().Underlying().(type) {
-				case *types.Interface:
-					wF = st.Field(i).Name()
-				case *types.Basic:
-					if u.Kind() == types.String {
-						cF = st.Field(i).Name()
-					}
-					if u.Kind() == types.Bool {
-						bF = st.Field(i).Name()
-					}
-				}
-			}
-		}
-	}
-	if wF == "" || cF == "" || bF == "" {
-		return "separator writer does not have (io.Writer, string, bool) fields"
-	}
-	info := p.Pkg.TypesInfo
-	recv := recvObj(info, fd)
-	ps := paramObjs(info, fd)
-	if len(ps) != 1 || len(fd.Body.List) != 4 {
-		return "commaWriter.Write: unexpected shape"
-	}
-	bs := ps[0]
-	r := recv.Name()
-	// 1. if len(bs) == 0 { return 0, nil }
-	if ifs, ok := fd.Body.List[0].(*ast.IfStmt); !ok || types.ExprString(ifs.Cond) != "len("+bs.Name()+") == 0" {
-		return "commaWriter.Write: empty writes are not ignored first"
-	}
-	// 2. if !c.written && c.comma != "" { _, err := c.w.Write([]byte(c.comma)); if err != nil { return 0, err } }
-	ifs, ok := fd.Body.List[1].(*ast.IfStmt)
-	if !ok || types.ExprString(ifs.Cond) != "!"+r+"."+bF+" && "+r+"."+cF+" != \"\"" || len(ifs.Body.List) != 2 {
-		return "commaWriter.Write: separator guard is not `!c.written && c.comma != \"\"`"
-	}
-	as, ok := ifs.Body.List[0].(*ast.AssignStmt)
-	if !ok || types.ExprString(as.Rhs[0]) != r+"."+wF+".Write([]byte("+r+"."+cF+"))" {
-		return "commaWriter.Write: separator is not written to the underlying writer"
-	}
-	// 3. c.written = true
-	as3, ok := fd.Body.List[2].(*ast.AssignStmt)
-	if !ok || types.ExprString(as3.Lhs[0]) != r+"."+bF || types.ExprString(as3.Rhs[0]) != "true" {
-		return "commaWriter.Write: does not record that something was written"
-	}
-	// 4. return c.w.Write(bs)
-	ret, ok := fd.Body.List[3].(*ast.ReturnStmt)
-	if !ok || len(ret.Results) != 1 || types.ExprString(ret.Results[0]) != r+"."+wF+".Write("+bs.Name()+")" {
-		return "commaWriter.Write: payload is not forwarded unchanged"
-	}
-	return ""
-}
 
 // arrayComponentProblem: for a named slice type with a generated MarshalJSON,
 // "" when every path writes `[` … `]` (a nil slice encodes as []), otherwise the reason.
